@@ -62,6 +62,8 @@ def _load_original(fid):
 def _norm_xml(font, tag):
     from props.c01 import table_xml
 
+    if not hasattr(font, "bitmapGlyphDataFormat"):
+        font.bitmapGlyphDataFormat = "raw"  # set by saveXML() only; the bitmap tables read it in toXML
     x = table_xml(font, tag)
     return _WS.sub(b" ", x)
 
